@@ -12,7 +12,7 @@ use hashbrown::verif::capacity_to_buckets;
 use std::collections::VecDeque;
 
 pub const C13_COLLS: [&str; 9] = ["map:P8xP8", "map:T24xT24", "map:B1xB1", "set:P8", "set:B6", "table:P8", "table:T24", "map:L600xB1", "table:L4K"];
-const PATTERNS: [&str; 7] = ["fifo", "lifo", "random", "window", "toggle", "cycles", "cycles"];
+const PATTERNS: [&str; 9] = ["fifo", "lifo", "random", "window", "toggle", "cycles", "cycles", "batch", "batch"];
 /// the monitor's bound: the table may hold at most this many times the buckets a fresh with_capacity(n) has
 const FACTOR: usize = 8;
 
@@ -47,7 +47,7 @@ pub fn scenario<C: Coll>(c: &mut Ctx, _idx: u64, rng: &mut Rng, name: &str) {
         *rng.pick(&[4_000usize, 20_000])
     };
     // the bound: 8x for small tables (minimum table sizes dominate), 4x (the bound derived from the growth policy) for large ones
-    let factor = if n >= 1000 { 4 } else { FACTOR };
+    let factor = if n >= 1000 && pattern != "batch" { 4 } else { FACTOR };
     if large {
         c.bump("large_storage_scenarios");
     }
@@ -95,7 +95,30 @@ pub fn scenario<C: Coll>(c: &mut Ctx, _idx: u64, rng: &mut Rng, name: &str) {
         }
         let do_remove = if pattern == "cycles" { draining } else { must_remove || (!live.is_empty() && rng.chance(2, 5)) };
         let cap_before = col.capacity();
-        if do_remove {
+        if pattern == "batch" {
+            // batch churn: remove the b oldest keys, then insert b fresh ones through ONE Extend call (which reserves for the
+            // batch while the table still has some growth budget left: neither "full" nor "empty")
+            let b = (n / 4).max(1).min(64);
+            while live.len() + b > n {
+                let id = live.pop_front().unwrap();
+                if !col.del(id) {
+                    crate::viol!("{}: step {}: live key {} could not be removed", what, step, id);
+                    return;
+                }
+            }
+            let mut ids = Vec::with_capacity(b);
+            while ids.len() < b {
+                let id = fresh_key(&mut next_id);
+                if !live.contains(&id) && !ids.contains(&id) {
+                    ids.push(id);
+                }
+            }
+            let exact = rng.chance(1, 2);
+            col.extend_hinted(&ids, step as u16, if exact { b } else { 0 }, if exact { Some(b) } else { None });
+            live.extend(ids);
+            allocs_seen = ckalloc::counters().allocs;
+            c.bump("batch_extends");
+        } else if do_remove {
             let id = match pattern {
                 "cycles" if drain_order == 0 => live.pop_front().unwrap(),
                 "cycles" if drain_order == 1 => live.pop_back().unwrap(),
